@@ -24,7 +24,7 @@ func init() {
 
 func runC17(c *Ctx) {
 	const g, at, ev = "C17.guarded", "C17.atomic", "C17.evict"
-	if !c.need(g, c.a.DrvOpen, c.a.DrvOpenFile, c.a.FileConnClose, c.a.DriverT, c.a.FileConnT, c.a.OpenIndex, c.a.IndexClose) {
+	if !c.need(g, c.a.DrvOpen, c.a.DrvOpenFile, c.a.FileConnClose, c.a.DriverT, c.a.FileConnT, c.a.OpenIndex, c.a.IndexClose, c.a.FileStmtT, c.a.RowsT) {
 		return
 	}
 	mtx := mutexFieldOf(c.a.DriverT)
@@ -32,7 +32,7 @@ func runC17(c *Ctx) {
 	if st, ok := c.a.DriverT.Underlying().(*types.Struct); ok {
 		for i := 0; i < st.NumFields(); i++ {
 			if m, ok := st.Field(i).Type().Underlying().(*types.Map); ok {
-				if typeIs(m.Elem(), pkgDriver, "fileConn") {
+				if namedOf(m.Elem()) == c.a.FileConnT {
 					cache = st.Field(i)
 				}
 			}
@@ -44,7 +44,7 @@ func runC17(c *Ctx) {
 	}
 	// entry points: everything database/sql can call
 	entries := []*ssa.Function{c.a.DrvOpen}
-	for _, tn := range []*types.Named{c.a.FileConnT, c.w.namedType(pkgDriver, "fileStmt"), c.w.namedType(pkgDriver, "rows")} {
+	for _, tn := range []*types.Named{c.a.FileConnT, c.a.FileStmtT, c.a.RowsT} {
 		if tn == nil {
 			continue
 		}
